@@ -1899,18 +1899,29 @@ Proof.
 Qed.
 
 (* ---- the look-ahead byte matters at the end of a multi-line annotation and, in length mode,
-   at a slash after the array (there it decides between errEOS and the annotation) ---- *)
+   at a slash after the array (there it decides between errEOS and the annotation; with no
+   byte after the slash it is errEOS, fix 3cd814f).  A step that succeeds and leads neither to
+   the end of a multi-line annotation nor into an annotation opener does not depend on it ---- *)
+Definition la_free (R : sres) : Prop :=
+  match R with
+  | SOk s1 => s_step s1 <> StMultiLineAnnotationEnd /\ s_step s1 <> StAnyAnnotationStart
+  | SRedo _ => True
+  | _ => False
+  end.
+
 Lemma end_top_la_none lc idx s c la R :
-  end_top lc idx s c la = R -> R <> SEos -> end_top lc idx s c None = R.
+  end_top lc idx s c la = R -> la_free R -> end_top lc idx s c None = R.
 Proof.
   unfold end_top. destruct (is_newline c); [intros <- _; reflexivity|].
   destruct (ch c 47); [|intros <- _; reflexivity].
   destruct la as [x|]; [|intros <- _; reflexivity].
-  destruct (lc && negb (ch x 47) && negb (ch x 42))%bool; [intros <- H; congruence|intros <- _; reflexivity].
+  destruct (lc && negb (ch x 47) && negb (ch x 42))%bool; [intros <- H; contradiction H|].
+  unfold switch_to_annotation. destruct (s_ann s); [intros <- H; contradiction H|].
+  intros <- [_ H]. cbn_sc_in H. exfalso. apply H. reflexivity.
 Qed.
 
 Lemma end_value_la_none lc data idx s c la R :
-  end_value lc data idx s c la = R -> R <> SEos -> end_value lc data idx s c None = R.
+  end_value lc data idx s c la = R -> la_free R -> end_value lc data idx s c None = R.
 Proof.
   unfold end_value. destruct (s_stack s) as [|[t b] rest]; [apply end_top_la_none|].
   destruct t; try (intros <- _; reflexivity).
@@ -1919,59 +1930,51 @@ Proof.
 Qed.
 
 Lemma state0_la_none lc data idx s c la R :
-  state0 lc data idx s c la = R -> R <> SEos -> state0 lc data idx s c None = R.
+  state0 lc data idx s c la = R -> la_free R -> state0 lc data idx s c None = R.
 Proof.
   unfold state0. destruct (ch c 46); [intros <- _; reflexivity|].
   destruct (ch c 101 || ch c 69)%bool; [intros <- _; reflexivity|]. apply end_value_la_none.
 Qed.
 
 Lemma step1_la_none lc data idx s c la R :
-  step1 lc data idx s c la = R -> R <> SEos ->
-  (forall s1, R = SOk s1 -> s_step s1 <> StMultiLineAnnotationEnd) ->
-  step1 lc data idx s c None = R.
+  step1 lc data idx s c la = R -> la_free R -> step1 lc data idx s c None = R.
 Proof.
-  unfold step1. destruct (s_step s); try (intros <- _ _; reflexivity).
-  - intros H Hne _. apply (end_value_la_none _ _ _ _ _ _ _ H Hne).
-  - intros H Hne _. apply (end_top_la_none _ _ _ _ _ _ H Hne).
-  - destruct (is_digit c); [intros <- _ _; reflexivity|].
-    intros H Hne _. apply (state0_la_none _ _ _ _ _ _ _ H Hne).
-  - intros H Hne _. apply (state0_la_none _ _ _ _ _ _ _ H Hne).
-  - destruct (is_digit c); [intros <- _ _; reflexivity|].
-    destruct (ch c 101 || ch c 69)%bool; [intros <- _ _; reflexivity|].
-    intros H Hne _. apply (end_value_la_none _ _ _ _ _ _ _ H Hne).
-  - destruct (is_newline c); [intros <- _ _; reflexivity|].
-    destruct (is_blank c); [intros <- _ _; reflexivity|].
-    unfold multi_line_annotation_text. destruct la as [d|]; [|intros <- _ _; reflexivity].
-    destruct (ch c 42 && ch d 47)%bool; [|rewrite andb_false_r; intros <- _ _; reflexivity].
-    intros <- _ H. exfalso. eapply H; reflexivity.
-  - unfold multi_line_annotation_text. destruct la as [d|]; [|intros <- _ _; reflexivity].
-    destruct (ch c 42 && ch d 47)%bool; [|rewrite andb_false_r; intros <- _ _; reflexivity].
-    intros <- _ H. exfalso. eapply H; reflexivity.
+  unfold step1. destruct (s_step s); try (intros <- _; reflexivity).
+  - apply end_value_la_none.
+  - apply end_top_la_none.
+  - destruct (is_digit c); [intros <- _; reflexivity|]. apply state0_la_none.
+  - apply state0_la_none.
+  - destruct (is_digit c); [intros <- _; reflexivity|].
+    destruct (ch c 101 || ch c 69)%bool; [intros <- _; reflexivity|]. apply end_value_la_none.
+  - destruct (is_newline c); [intros <- _; reflexivity|].
+    destruct (is_blank c); [intros <- _; reflexivity|].
+    unfold multi_line_annotation_text. destruct la as [d|]; [|intros <- _; reflexivity].
+    destruct (ch c 42 && ch d 47)%bool; [|rewrite andb_false_r; intros <- _; reflexivity].
+    intros <- [H _]. exfalso. apply H. reflexivity.
+  - unfold multi_line_annotation_text. destruct la as [d|]; [|intros <- _; reflexivity].
+    destruct (ch c 42 && ch d 47)%bool; [|rewrite andb_false_r; intros <- _; reflexivity].
+    intros <- [H _]. exfalso. apply H. reflexivity.
 Qed.
 
 Lemma dispatch_la_none lc data idx c la : forall f s R,
-  dispatch f lc data idx s c la = R -> R <> SEos ->
-  (forall s1, R = SOk s1 -> s_step s1 <> StMultiLineAnnotationEnd) ->
-  dispatch f lc data idx s c None = R.
+  dispatch f lc data idx s c la = R -> la_free R -> dispatch f lc data idx s c None = R.
 Proof.
   induction f as [|f IH]; intros s R; cbn [dispatch].
-  - destruct (step1 lc data idx s c la) as [s1|code pos| | |s'] eqn:E; intros <- Hne H.
-    + rewrite (step1_la_none _ _ _ _ _ _ _ E); [reflexivity|discriminate|]. intros s2 X. inversion X; subst. apply H. reflexivity.
-    + rewrite (step1_la_none _ _ _ _ _ _ _ E); [reflexivity|discriminate|discriminate].
-    + congruence.
-    + rewrite (step1_la_none _ _ _ _ _ _ _ E); [reflexivity|discriminate|discriminate].
-    + rewrite (step1_la_none _ _ _ _ _ _ _ E); [reflexivity|discriminate|discriminate].
-  - destruct (step1 lc data idx s c la) as [s1|code pos| | |s'] eqn:E; intros HR Hne H.
-    + subst R. rewrite (step1_la_none _ _ _ _ _ _ _ E); [reflexivity|discriminate|]. intros s2 X. inversion X; subst. apply H. reflexivity.
-    + subst R. rewrite (step1_la_none _ _ _ _ _ _ _ E); [reflexivity|discriminate|discriminate].
-    + congruence.
-    + subst R. rewrite (step1_la_none _ _ _ _ _ _ _ E); [reflexivity|discriminate|discriminate].
-    + rewrite (step1_la_none _ _ _ _ _ _ _ E); [|discriminate|discriminate]. apply IH; assumption.
+  - destruct (step1 lc data idx s c la) as [s1|code pos| | |s'] eqn:E; intros <- H;
+      try contradiction H.
+    rewrite (step1_la_none _ _ _ _ _ _ _ E H). reflexivity.
+  - destruct (step1 lc data idx s c la) as [s1|code pos| | |s'] eqn:E; intros HR H.
+    + subst R. rewrite (step1_la_none _ _ _ _ _ _ _ E H). reflexivity.
+    + subst R. contradiction H.
+    + subst R. contradiction H.
+    + subst R. contradiction H.
+    + rewrite (step1_la_none _ _ _ _ _ _ _ E I). apply IH; assumption.
 Qed.
 
 Lemma runl_la_none lc data : forall bs s idx la racc,
   r_out (runl lc data s idx bs la racc) = Done ->
   s_step (r_sc (runl lc data s idx bs la racc)) <> StMultiLineAnnotationEnd ->
+  s_step (r_sc (runl lc data s idx bs la racc)) <> StAnyAnnotationStart ->
   runl lc data s idx bs None racc = runl lc data s idx bs la racc.
 Proof.
   induction bs as [|c r IH]; intros s idx la racc; cbn [runl]; [reflexivity|].
@@ -1980,11 +1983,10 @@ Proof.
       try (unfold r_out; cbn [fst snd]; discriminate).
     destruct (process_finds idx (s_stack s1) (s_finds s1) racc) as [[stk' racc'] ok] eqn:Ep.
     destruct ok; [|unfold r_out; cbn [fst snd]; discriminate].
-    cbn [runl]. unfold r_out, r_sc. cbn [fst snd]. cbn_sc. intros _ Hm.
+    cbn [runl]. unfold r_out, r_sc. cbn [fst snd]. cbn_sc. intros _ Hm Ha.
     unfold step in *. rewrite (dispatch_la_none _ _ _ _ _ _ _ _ E).
     + rewrite Ep. reflexivity.
-    + discriminate.
-    + intros s2 X. inversion X; subst. exact Hm.
+    + split; assumption.
   - destruct (step lc data idx s c (Some d)) as [s1|code pos| | |s']; try reflexivity.
     destruct (process_finds idx (s_stack s1) (s_finds s1) racc) as [[stk' racc'] ok].
     destruct ok; [|reflexivity]. apply IH.
@@ -2103,7 +2105,7 @@ Proof.
     pose proof (closable_not_mlend bs _ _ _ _ HI (proj2 (closable2_some _ _ _ _ _ Ecl))) as Hml.
     assert (Hrun : run true p sc0 0%N p [] = r1).
     { rewrite run_runl. unfold p at 1. rewrite runl_data by (try lia; rewrite Hp; cbn; lia).
-      apply runl_la_none; [exact Eo|exact Hml]. }
+      apply runl_la_none; [exact Eo|exact Hml|exact (proj1 (closable2_some _ _ _ _ _ Ecl))]. }
     fold p. rewrite Hrun. unfold final_revs, final_out. rewrite Eo.
     unfold cut_len in C. rewrite Hidx, Nat2N.id in C. fold p in C. rewrite Hidx. exact C.
   - (* the scanner stopped inside the prefix: impossible *)
@@ -2666,11 +2668,13 @@ Example enum_scan_opener_side_conditions :
   snd (scan false [x5b; x5d; x2f; x2f]) = Eos /\
   snd (scan false ([x5b; x5d; x2f; x2f] ++ [x20; x2f])) = Eos /\
   snd (scan false ([x5b; x5d; x2f; x2f] ++ [x0a; x2f])) = Err code_unexpected_eof 5%N /\
-  (* the consumers: Check refuses "[1] /" and "[1]/", and so does Len (in length-computing mode
-     a '/' with nothing after it is tried as an annotation) *)
+  (* the consumers: Check refuses "[1] /" and "[1]/"; for Len (length-computing mode) a '/' after
+     the array with nothing after it is the first byte after the rule (fix 3cd814f), while inside
+     the array ("[1,/") it is the unfinished opener there too *)
   enum_check [x5b; x31; x5d; x20; x2f] = VErr code_unexpected_eof 4%N /\
-  enum_len [x5b; x31; x5d; x20; x2f] = (VErr code_unexpected_eof 4%N, 0%N) /\
-  enum_len [x5b; x31; x5d; x2f] = (VErr code_unexpected_eof 3%N, 0%N) /\
+  enum_len [x5b; x31; x5d; x20; x2f] = (VOk, 3%N) /\
+  enum_len [x5b; x31; x5d; x2f] = (VOk, 3%N) /\
+  enum_len [x5b; x31; x2c; x2f] = (VErr code_unexpected_eof 3%N, 0%N) /\
   (* fix a0479cf: in "[1] /x" the slash begins neither // nor /*: Len stops before it *)
   enum_len [x5b; x31; x5d; x20; x2f; x78] = (VOk, 3%N) /\
   enum_len [x5b; x31; x5d; x20; x78] = (VOk, 3%N).
@@ -2682,9 +2686,9 @@ Example enum_slash_and_number_key_examples :
   (* "[1, 2]" LF "/cats": Len 6; the events end with the NewLine at 6 *)
   enum_len [x5b; x31; x2c; x20; x32; x5d; x0a; x2f; x63; x61; x74; x73] = (VOk, 6%N) /\
   enum_len (firstn 6 [x5b; x31; x2c; x20; x32; x5d; x0a; x2f; x63; x61; x74; x73]) = (VOk, 6%N) /\
-  (* "[1]/x": Len 3; but a slash at the very end is still the unfinished opener *)
+  (* "[1]/x": Len 3; so is a slash at the very end since the fix 3cd814f *)
   enum_len [x5b; x31; x5d; x2f; x78] = (VOk, 3%N) /\
-  enum_len [x5b; x31; x5d; x20; x2f] = (VErr code_unexpected_eof 4%N, 0%N) /\
+  enum_len [x5b; x31; x5d; x20; x2f] = (VOk, 3%N) /\
   (* "[1] //" and "[1] /**/" are annotations as before *)
   enum_len [x5b; x31; x5d; x20; x2f; x2f] = (VOk, 6%N) /\
   enum_len [x5b; x31; x5d; x20; x2f; x2a; x2a; x2f] = (VOk, 8%N) /\
